@@ -6,6 +6,7 @@ package kaisim
 
 import (
 	"fmt"
+	"strings"
 	"sort"
 
 	corev1 "k8s.io/api/core/v1"
@@ -64,7 +65,11 @@ func (o *CapacityOracle) AfterOp(r *Run, op Op) {
 			if o.grew("dra/"+pr, 1) {
 				r.Probe("dra_violation_seen")
 				rule := "dra_device"
-				if r.draDouble || r.draInconsistent {
+				if strings.Contains(pr, "selects node") || strings.Contains(pr, "but its claim") {
+					// a claim that is already allocated on another node (a failed bind attempt leaves the claim allocated and
+					// reserved, the pod is then placed elsewhere): the scheduler does not honour the allocation's node
+					rule = "dra_device_claim_allocated_on_other_node"
+				} else if r.draDouble || r.draInconsistent {
 					// the scheduler's own DRA bookkeeping (claim cache vs allocated-device set) had already fallen apart
 					// earlier in this run (C14 findings dra_device_*): the API-level consequence of that
 					rule += "_after_inconsistent_view"
